@@ -328,6 +328,39 @@ def run(ctx):
             ctx.ob("C19.a", gcl.qual, "logged_in" in st, "the shared cloud client is cached only after its login() completed", func=gcl.qual, file=gcl.module.rel, node=node,
                    fail="the cloud client is cached before login() has completed: after a failed first login later devices use a client without a session")
     ctx.count("cloud_cache_stores", n_cache)
+    # ... and it is the client of *this* run's account: discover() stores the region and credentials every later _get_cloud of the run logs in
+    # with; a client cached by an earlier discover() is dropped there, unless the test that keeps it compares region, account and password
+    # with the ones it was created for (with the default credentials account and password are None for every region)
+    dsf = ctx.fn(f"{DISC}.discover")
+    dss_ = summarize(prog, dsf)
+    cp = dsf.params[0]
+    KEYS = {"_region": "region", "_account": "account", "_password": "password"}
+
+    def kept_under(t, gates=()):
+        """[(gates)] for every leaf of the gated value that is not None (the client of an earlier run kept)"""
+        t = strip(t)
+        if t[0] == "ite":
+            return kept_under(t[2], gates + ((t[1], True),)) + kept_under(t[3], gates + ((t[1], False),))
+        return [] if t == ("const", None) else [gates]
+    n_reset = 0
+    for _pc, _t, rn_, rst_ in dss_.returns:
+        if not any(f"{cp}.{k}" in rst_.env for k in KEYS):
+            continue          # (a path that configures no credentials says nothing)
+        n_reset += 1
+        v = rst_.env.get(f"{cp}._cloud")
+        missing = sorted(KEYS.values())
+        if v is not None:
+            missing = []
+            for gates in kept_under(v):
+                seen_ = {x for g, _truth in gates for x in subterms(g)}
+                miss = [par for attr_, par in KEYS.items() if not (("param", par) in seen_ and ("attr", ("param", cp), attr_) in seen_)]
+                missing = sorted(set(missing) | set(miss))
+        ctx.ob("C19.a", dsf.qual, not missing, "discover() drops the cloud client of an earlier run (or keeps it only for the same region, account and password)",
+               func=dsf.qual, file=dsf.module.rel, node=rn_, construct="cls._cloud reset", detail={"value": show(v)[:160] if v is not None else None},
+               fail=f"discover() can keep the cloud client of an earlier run although {', '.join(missing)} may differ: the next device is authenticated "
+                    "with a session of the other account / region (no login-id, no login request for this one)")
+    ctx.count("cloud_resets", n_reset)
+    ctx.require_min("cloud_resets", 1)
     # ---------------------------------------------------------------- C19.d
     ad = ctx.fn(f"{DISC}._authenticate_device")
     ads = summarize(prog, ad)
